@@ -139,6 +139,54 @@ CASES = [
          raises={"AlphabetError": raises_decode},
          ensures=[("decode", ens_decode)], timeout=20),
 ]
+
+
+# ---- map_sequence_code: codes are sent through the mapping table, one by one ------------------
+
+def setup_map(t_map, t_in):
+    def setup(I):
+        from pyvc.heap import SymArr
+        n_src = sym_int(I, "n_source", 0, 2 ** 20)
+        m = sym_int(I, "m", 0, 2 ** 31 - 2)
+        m_out = sym_int(I, "m_out", 0, 2 ** 31 - 2)
+        mapping = SymArr("mapping", t_map, [n_src], readonly=True).view(memview=True)
+        in_code = SymArr("in_code", t_in, [m], readonly=True).view(memview=True)
+        out_code = SymArr("out_code", t_map, [m_out]).view(memview=True)
+        g = {"n_src": n_src, "m": m, "m_out": m_out, "MAP": mapping.arr, "IN": in_code.arr, "out": out_code}
+        I.ghost["map"] = g
+        return {"args": [mapping, in_code, out_code], "ghost": g}
+    return setup
+
+
+def inv_map(I, env):
+    g = I.ghost["map"]
+    i = zint(I.unC(env.lookup("i")))
+    O = env.lookup("out_code").arr
+    p = z3.Int("p!m")
+    return z3.And(i >= 0, i <= g["m"],
+                  z3.ForAll([p], z3.Implies(z3.And(p >= 0, p < i),
+                                            z3.And(z3.Select(g["IN"], p) < g["n_src"],
+                                                   z3.Select(O, p) == z3.Select(g["MAP"], z3.Select(g["IN"], p))))))
+
+
+def ens_map(I, env):
+    g = I.ghost["map"]
+    p = I.ctx.fresh_int("p")
+    return [("every_code_mapped", implies(z3.And(p >= 0, p < g["m"]),
+                                          z3.Select(g["out"].arr, p) == z3.Select(g["MAP"], z3.Select(g["IN"], p))))]
+
+
+def raises_map_index(I, env):
+    g = I.ghost["map"]
+    p = z3.Int("p!x")
+    return z3.And(g["m"] == g["m_out"], z3.Exists([p], z3.And(p >= 0, p < g["m"], z3.Select(g["IN"], p) >= g["n_src"])))
+
+
+for _tm, _ti in (("uint8", "uint8"), ("uint16", "uint64"), ("uint8", "uint32")):
+    CASES.append(Case(CODEC + "::map_sequence_code", f"CodeType2={_tm},CodeType1={_ti}", setup=setup_map(_tm, _ti),
+                      loops={0: {"invariant": [inv_map]}},
+                      raises={"ValueError": lambda I, env: I.ghost["map"]["m"] != I.ghost["map"]["m_out"], "IndexError": raises_map_index},
+                      ensures=[("mapped", ens_map)], timeout=20))
 MIN_OBLIGATIONS = 15
 
 
